@@ -1,5 +1,6 @@
 import Driver.Proto
 import ZipVerif.Spec.ZipView
+import ZipVerif.Spec.ZipOrder
 import ZipVerif.Spec.Crc32
 /- Ops `spec.*`: the Lean reference builder `Spec.Zip.build` and the expected reader view
    `Spec.Zip.viewOf` evaluated on a layout given by parameters (cross-checked by the harness against
@@ -123,11 +124,85 @@ def specBuild (l : Layout) : String :=
   let per := shown.map fun (i, (e, off, f)) => s!" | {i} {showView rows e off l.pre.length f}"
   head ++ s!" hyp=1 | open n={cnt} off={l.pre.length} comment={toHex l.comment}" ++ String.join per
 
+/-! ### generalised layouts (`Spec.Zip.LayoutG`): `order=`, `sat=`, `ext=`, `egap=`, `zp=`, `zd=` -/
+
+/-- the generalised parameters of a `spec.build` line; `none` when the line has none of them (a plain layout).
+`order` = indices the directory lists (any list: permutation, sub-list, repetitions, out-of-range indices),
+`sat` = 1: markers in the plain end record next to forced ZIP64 records, 0: real values, `ext` = extensible
+data sector, `egap` = bytes in front of the ZIP64 end record, `zp` / `zd` = per entry (local order) the number of
+foreign records in front of the central ZIP64 record / 1 when it carries the disk-start field (value 0). -/
+def parseLayoutG (a : Args) (l : Layout) : Option (Option LayoutG) :=
+  if (a.get? "order").isNone && (a.get? "sat").isNone && (a.get? "ext").isNone && (a.get? "egap").isNone &&
+      (a.get? "zp").isNone && (a.get? "zd").isNone then some none
+  else do
+    let order ← match a.get? "order" with
+      | some s => natList? s
+      | none => some (List.range l.entries.length)
+    let zp ← match a.get? "zp" with
+      | some s => natList? s
+      | none => some []
+    let zd ← match a.get? "zd" with
+      | some s => natList? s
+      | none => some []
+    let n := max zp.length zd.length
+    let places : List Z64Place := (List.range n).map fun i =>
+      { pos := match zp[i]? with | some v => v | none => 0
+        disk := match zd[i]? with | some 1 => some 0 | _ => none }
+    let ext ← match a.get? "ext" with | some _ => a.hex? "ext" | none => some []
+    let egap ← match a.get? "egap" with | some _ => a.hex? "egap" | none => some []
+    some (some { base := l, cdOrder := order, eocdSaturate := (a.nat? "sat").getD 1 != 0, end64Ext := ext,
+                 end64Gap := egap, z64Place := places })
+
+/-- `Spec.Zip.NoFalseSigG g` in one pass over the built bytes (cross-checked against the definition on small
+layouts, like `noFalseSigFast`) -/
+def noFalseSigFastG (g : LayoutG) (bytes : Bytes) : Bool :=
+  let clen := g.base.comment.length
+  let tlen := g.base.trailing.length
+  let n64 := g.needs64
+  let eocdPos := bytes.length - 22 - clen - tlen
+  let okI := clen + tlen ≤ 65535 && noSigIn sigEocd (clen + tlen) (bytes.drop (eocdPos + 1))
+  let okII := n64 || bytes.length < 42 + clen ||
+    noSigIn sigLocator 1 (bytes.drop (bytes.length - 42 - clen))
+  let okIII := !n64 ||
+    noSigIn sigEocd64 g.base.pre.length (bytes.drop (eocdPos - 76 - g.end64Ext.length - g.base.pre.length))
+  okI && okII && okIII
+
+@[noinline] def nfsByDefinitionG (g : LayoutG) : Bool := decide (NoFalseSigG g)
+
+/-- the hypotheses of `Props.C03Order.reader_on_wf_cd_order`, evaluated -/
+def hypHoldsG (g : LayoutG) (bytes : Bytes) : Option Bool :=
+  let fits := g.base.entries.all (fun e => decide e.Fits) && g.base.comment.length ≤ 0xFFFF &&
+    bytes.length < 2 ^ 63 &&
+    g.cdList.all (fun q => (q.1.1.centralExtraAllG (UInt64.ofNat q.1.2) q.2).length ≤ 0xFFFF)
+  let nfs := noFalseSigFastG g bytes
+  let r := fits && decide g.base.Readable && nfs && (g.base.trailing.isEmpty || !g.needs64)
+  if bytes.length ≤ 1200 then
+    if nfs != nfsByDefinitionG g then none else some r
+  else some r
+
+/-- bytes of `buildG`, then the view `viewOfG` that `reader_on_wf_cd_order` says the reader returns -/
+def specBuildG (g : LayoutG) : String :=
+  let bytes := buildG g
+  let n := bytes.length
+  let head := s!"b len={n} crc={(Spec.Crc32.crc32 bytes).toNat} hex={if n ≤ 400 then toHex bytes else "-"}"
+  match hypHoldsG g bytes with
+  | none => head ++ " hyp=MISMATCH"
+  | some false => head ++ " hyp=0"
+  | some true =>
+  let views := viewOfG g
+  let rows := zip3 (g.cdList.map (·.1.1)) (g.cdList.map (·.1.2)) views
+  let cnt := rows.length
+  let shown := (List.range cnt).zip rows |>.filter fun (i, _) => cnt ≤ 8 || i < 3 || i + 1 == cnt
+  let per := shown.map fun (i, (e, off, f)) => s!" | {i} {showView rows e off g.base.pre.length f}"
+  head ++ s!" hyp=1 | open n={cnt} off={g.base.pre.length} comment={toHex g.base.comment}" ++ String.join per
+
 def opSpec (op : String) (a : Args) : Option String := do
   match op with
   | "spec.build" =>
     let l ← parseLayout a
-    some (specBuild l)
+    match ← parseLayoutG a l with
+    | none => some (specBuild l)
+    | some g => some (specBuildG g)
   | _ => none
 
 end Driver
